@@ -9,6 +9,8 @@ spelling rather than on the program (a false alarm in waiting).  Used by the tho
   commute  a + b -> b + a (also *, &, |)    dimkw    x.sum(-1) -> x.sum(dim=-1), torch.cat(xs, 1) -> torch.cat(xs, dim=1)
   unelse   the else branch after an early return is flattened   tempret  return <expr> -> _ret = <expr>; return _ret
   format   ast.unparse round trip (comments / layout dropped)
+  demorgan ~(a & b) -> ~a | ~b              ifswap   if c: A else: B -> if not c: B else: A (also conditional expressions)
+  torchfn  td["k"].sum(..) -> torch.sum(td["k"], ..) (reductions on TensorDict reads)
 """
 import ast
 import contextlib
@@ -160,7 +162,47 @@ class Yoda(ast.NodeTransformer):
         return node
 
 
-TRANSFORMS = {"rename": Renamer, "size": SizeCall, "shape": ShapeIndex, "yoda": Yoda, "commute": Commute, "dimkw": DimKw, "unelse": UnElse, "tempret": TempReturn, "format": None}
+class DeMorgan(ast.NodeTransformer):
+    """~(a & b) -> ~a | ~b ;  ~(a | b) -> ~a & ~b   (bitwise identity, valid for bool and integer tensors alike)"""
+
+    def visit_UnaryOp(self, node):
+        self.generic_visit(node)
+        if isinstance(node.op, ast.Invert) and isinstance(node.operand, ast.BinOp) and isinstance(node.operand.op, (ast.BitAnd, ast.BitOr)):
+            b = node.operand
+            op = ast.BitOr() if isinstance(b.op, ast.BitAnd) else ast.BitAnd()
+            return ast.BinOp(left=ast.UnaryOp(op=ast.Invert(), operand=b.left), op=op, right=ast.UnaryOp(op=ast.Invert(), operand=b.right))
+        return node
+
+
+class IfSwap(ast.NodeTransformer):
+    """if c: A else: B  ->  if not c: B else: A   (statements with a plain else, and conditional expressions)"""
+
+    def visit_If(self, node):
+        self.generic_visit(node)
+        if node.orelse and not (len(node.orelse) == 1 and isinstance(node.orelse[0], ast.If)):
+            return ast.If(test=ast.UnaryOp(op=ast.Not(), operand=node.test), body=node.orelse, orelse=node.body)
+        return node
+
+    def visit_IfExp(self, node):
+        self.generic_visit(node)
+        return ast.IfExp(test=ast.UnaryOp(op=ast.Not(), operand=node.test), body=node.orelse, orelse=node.body)
+
+
+class TorchFn(ast.NodeTransformer):
+    """td["k"].sum(...) -> torch.sum(td["k"], ...) for reductions on values read straight from a TensorDict (certainly tensors)"""
+    M = {"sum", "max", "min", "cumsum", "gather", "argmax", "argmin", "abs", "clamp", "prod", "mean"}
+
+    def visit_Call(self, node):
+        self.generic_visit(node)
+        f = node.func
+        if isinstance(f, ast.Attribute) and f.attr in self.M and isinstance(f.value, ast.Subscript) and isinstance(f.value.value, ast.Name) \
+                and f.value.value.id in ("td", "td_reset", "td_init", "batch") and isinstance(f.value.slice, ast.Constant) and isinstance(f.value.slice.value, str) \
+                and not any(k.arg in ("keepdims", "axis") for k in node.keywords):
+            return ast.Call(func=ast.Attribute(value=ast.Name(id="torch", ctx=ast.Load()), attr=f.attr, ctx=ast.Load()), args=[f.value] + node.args, keywords=node.keywords)
+        return node
+
+
+TRANSFORMS = {"demorgan": DeMorgan, "ifswap": IfSwap, "torchfn": TorchFn, "rename": Renamer, "size": SizeCall, "shape": ShapeIndex, "yoda": Yoda, "commute": Commute, "dimkw": DimKw, "unelse": UnElse, "tempret": TempReturn, "format": None}
 
 
 
@@ -194,7 +236,7 @@ def build(root: str, kind: str):
     return ov
 
 
-def run_equivalences(ctx, kinds=("rename", "yoda", "dimkw", "commute", "size", "tempret", "unelse")):
+def run_equivalences(ctx, kinds=("rename", "yoda", "dimkw", "commute", "size", "tempret", "unelse", "demorgan", "ifswap", "torchfn")):
     """thorough tier: the rule module must report exactly the same failing (rule, construct) pairs on each rewritten repo"""
     from ..core import Ctx
     from ..model import AnalysisError, Repo
